@@ -235,6 +235,20 @@ def check_edges_of_cell(a5, c, fails):
                 ok = True
         if not ok:
             fails.append(Failure(f'cell {hex(c)} (resolution {r}): edge {i} is not an edge (reversed, vertex for vertex) of the neighbour {hex(nb)} found beyond it', {'kind': 'edge', 'cell': c})); return
+        if r <= 1:
+            # great-circle edge (exact in vectors): a point 1e-9 / 1e-10 rad outside it -- ten thousand times the float noise of the library's own
+            # decision -- belongs to the neighbour, never to this cell
+            nrm = G.norm(G.cross(a, b))
+            if G.dot(nrm, cen) < 0:
+                nrm = (-nrm[0], -nrm[1], -nrm[2])
+            for t in (0.25, 0.5, 0.8):
+                e = G.norm((a[0] + t * (b[0] - a[0]), a[1] + t * (b[1] - a[1]), a[2] + t * (b[2] - a[2])))
+                for delta in (1e-9, 1e-10):
+                    q = G.norm((e[0] - delta * nrm[0], e[1] - delta * nrm[1], e[2] - delta * nrm[2]))
+                    qlon = math.degrees(math.atan2(q[1], q[0]))
+                    qlat = math.degrees(_geodetic_from_authalic(math.atan2(q[2], math.sqrt(q[0] * q[0] + q[1] * q[1]))))
+                    if a5.lonlat_to_cell((qlon, qlat), r) == c:
+                        fails.append(Failure(f'cell {hex(c)} (resolution {r}): the point ({qlon!r}, {qlat!r}), {delta:g} rad outside the great-circle edge {i}, is assigned to the cell itself', {'kind': 'edge', 'cell': c})); return
         # near the two ends of the edge (2 % of its length from a corner), 0.5 % of a cell width outside: three cells meet there and the point
         # belongs to one of the other two, never to this cell.  Only for r >= 8, where the bulge of an edge at that spot is far below the push.
         if r >= 8:
